@@ -127,6 +127,18 @@ Theorem C06_dynamic_range_partial :
 Proof. intros. apply quantize_in_place_preserves_meaning; assumption. Qed.
 Print Assumptions C06_dynamic_range_partial.
 
+(* ... and for ANY number of constants quantized in place (same idealised
+   contract, hence still PARTIAL): every tensor that is not such a constant
+   holds the same value in both runs *)
+Theorem C06_dynamic_range_many_partial :
+  forall (val : Type) (K : Z -> Z -> list (option val) -> list val) isq (q dq : Z -> val) ops e e',
+    hybrid_exact_many val K isq q dq ->
+    Forall (fun o => forall t, In t (o_outs o) -> isq t = false) ops ->
+    InvQM val isq q dq e e' ->
+    InvQM val isq q dq (run val K ops e) (run val K ops e').
+Proof. intros. apply quantize_in_place_many_preserves_meaning; assumption. Qed.
+Print Assumptions C06_dynamic_range_many_partial.
+
 (* Non-vacuity: x -> FC(x, w) with K interpreting values as integers: the op
    with code index 0 adds its operands, DEQUANTIZE (appended code) doubles *)
 Definition exK (c u : Z) (ins : list (option Z)) : list Z :=
